@@ -41,11 +41,24 @@ def run_jobs(rep, pid, tier):
             continue
         for (a, b, c) in triples:
             flagsets = range(32) if n == "Derive" else ([0, 32, 96] if n == "Evolve" else [0])
+            if n == "Derive" and tier == "quick" and (a, b, c) == (2, 2, 2):
+                flagsets = [0, 10, 21, 31]      # the largest layout with a sample of switch settings in the quick tier (all 32 in thorough; all 32 for the smaller layouts)
             for fl in flagsets:
                 jobs.append(l1.Job("%s.nx%d.nrhos%d.nsc%d.flags%d" % (n, a, b, c, fl), ct, "h_" + n, includes=INC,
                                    defines=["NXB=%d" % a, "NRB=%d" % b, "NSB=%d" % c, "EXACT_SIZES", "FLAGS=%d" % fl], unwind=max(a, b, c) + 2,
                                    timeout=900, slice_formula=True, sat_solver="cadical", bound_text="nx=%d,nrhos=%d,nscalars=%d" % (a, b, c),
                                    function_label=label, where="src/SQuIDS.cpp"))
+    # two extra job families that keep floating-point comparisons within the SAT back end's reach by fixing one operand:
+    #   Evolve with nsteps = 4 (step size dt/nsteps compared), Derive with the in-step scalars set to distinct powers of two (the factor s of -GammaScalar*s is seen)
+    if "Evolve" in JOBS and pid in JOBS["Evolve"][1].split():
+        jobs.append(l1.Job("Evolve.nx2.nrhos1.nsc1.flags32.nsteps4", ct, "h_Evolve", includes=INC,
+                           defines=["NXB=2", "NRB=1", "NSB=1", "EXACT_SIZES", "FLAGS=32", "FIXED_NSTEPS=4"], unwind=4, timeout=900, slice_formula=True, sat_solver="cadical",
+                           bound_text="nx=2,nrhos=1,nscalars=1,nsteps=4", function_label=JOBS["Evolve"][0], where="src/SQuIDS.cpp"))
+    if "Derive" in JOBS and pid in JOBS["Derive"][1].split():
+        for fl in (8, 16):
+            jobs.append(l1.Job("Derive.nx2.nrhos1.nsc2.flags%d.scalars" % fl, ct, "h_Derive", includes=INC,
+                               defines=["NXB=2", "NRB=1", "NSB=2", "EXACT_SIZES", "FLAGS=%d" % fl, "SCALAR_CONSTS"], unwind=4, timeout=900, slice_formula=True, sat_solver="cadical",
+                               bound_text="nx=2,nrhos=1,nscalars=2, in-step scalars = distinct powers of two", function_label=JOBS["Derive"][0], where="src/SQuIDS.cpp"))
     tpl = open(os.path.join(core.VERIF, "contracts", "squids_l1.c")).read().split("\n")
     import re
     for res in core.pmap(lambda j: l1.run_job(j, bdir), jobs):
